@@ -78,7 +78,7 @@ func (s *c03State) observe(entry string, opts []string, input map[string]any, f 
 	s.calls++
 	var err error
 	goat.VerifSetBudget(30000)
-	finished, p := runWithWatchdog(3*time.Second, func() { err = f() })
+	finished, p := runWithWatchdog(8*time.Second, func() { err = f() })
 	goat.VerifSetBudget(-1)
 	o := &c03Obs{Entry: entry, Opts: opts, Input: input}
 	switch {
